@@ -10,6 +10,11 @@ L8 = dict(overlays=OVL, harness='harness/C08/lz4.c', extra_sources=[],
 L9 = dict(overlays=OVL, harness='harness/C09/lz4.c', extra_sources=[],
           trusted=['harness/C09/lz4.c: memcpy/memset as contracts (ranges accessible, whole destination object havocked; '
                    'copies <= CQV_MEMCPY_EXACT bytes exact)'])
+# compressor slices: the pure arithmetic is delegated to ghost lemma functions whose contracts replace their calls
+L9S = dict(L9, trusted=L9['trusted'] + [
+    'harness/C09/lz4.c: contracts of the arithmetic lemmas cqv_lemma_space/ext/inv/last/post are assumed at their call '
+    'sites (requires checked there); proved separately by the jobs c09_lz4_lemma_* (ext: proved; space/inv/last/post: '
+    'undecided by z3/cvc5/cadical so far, see their notes)'])
 L10 = dict(overlays=OVL, harness='harness/C10/lz4.c')
 FZ_D = dict(kind='fuzz', harness='replay/fz/lz4_decompress.c', sources=['src/compression/lz4.c'],
             max_len=48, secs=20)
@@ -36,7 +41,11 @@ JOBS = [
     # C09: pure arithmetic lemmas used (as replaced contracts) by the compressor slices; all arguments, SMT
 ] + [
     dict(name='c09_lz4_lemma_' + nm, prop='C09', entry='h_lemma_' + nm, loop_contracts=False,
-         backend=['z3', 'cvc5'], timeout=900, wip=True, functions=[], **L9)
+         backend=['z3', 'cvc5', 'cadical'], timeout=1800, wip=(nm != 'ext'), functions=[], tier='thorough',
+         note='' if nm == 'ext' else 'UNDECIDED: pure 64-bit linear arithmetic (products 255*x, x/255); no back end closes the '
+              'combined statement in 900 s. Each calc step (distributivity: z3 1 s; sum of inequalities, ext-length fact, '
+              'SIZE_INV <=> 255*o <= 256*a: cadical 2..110 s) closes alone; the cases literal length < 15 close (cadical 17/56 s).',
+         **L9)
     for nm in ['space', 'ext', 'inv', 'last', 'post']
 ] + [
     # C09 + C10: compressor, one contract / one set of loop invariants, obligations split over slices (select=):
@@ -45,7 +54,8 @@ JOBS = [
 ] + [
     dict(name='c09_lz4_compress_' + nm, props=['C09', 'C10'], entry='h_lz4_compress', enforce='carquet_lz4_compress',
          replace=['lz4_count'] + LEMMAS, unwindset=UW, min_loop_obligations=mlo,
-         select=sel, timeout=5400, mem_gb=12, backend='cadical', cbmc_flags=['--slice-formula'], replayer=FZ_C, wip=True, tier='thorough', **L9)
+         select=sel, timeout=5400, mem_gb=12, backend='cadical', cbmc_flags=['--slice-formula'],
+         replayer=FZ_C, wip=True, tier='thorough', **L9S)
     for nm, sel, mlo in [
         ('assigns', r'\.assigns\.', 0),
         ('deref_kind', r'\.pointer_dereference\.(?!.*outside object bounds)', 0),
@@ -63,7 +73,7 @@ JOBS = [
     dict(name='c10_lz4_compress_parseback_' + nm, props=['C10'], entry='h_lz4_compress', enforce='carquet_lz4_compress',
          replace=['lz4_count'] + LEMMAS, unwindset=UW, min_loop_obligations=mlo, defines=['CQV_LZ4_PARSEBACK=1'],
          select=sel, timeout=5400, mem_gb=12, backend='cadical', cbmc_flags=['--slice-formula'],
-         replayer=FZ_C, wip=True, tier='thorough', **L9)
+         replayer=FZ_C, wip=True, tier='thorough', **L9S)
     for nm, sel, mlo in [
         ('asserts', r'\.assertion\.', 0),
         ('invariants', r'^carquet_lz4_compress\.\d+ ', 4),
@@ -74,6 +84,8 @@ JOBS = [
     dict(name='c10_lz4_decoder_accepts_valid', prop='C10', entry='h_lz4_decompress_accepts_every_valid',
          loop_contracts=False, unwind=9, defines=['CQV_N=4', 'CQV_CAP=8'], level='bounded',
          bound='compressed block <= 4 bytes (all byte values; only literal-only blocks are valid at this size), destination capacity 8',
+         note='weak bound kept on purpose: the smallest valid block with a match has 10 bytes; complete unwinding of decoder + '
+              'spec validator at 6..10 bytes (unwind 18..45) did not finish symbolic execution in 15 min.',
          functions=['carquet_lz4_decompress'], trusted=['specs/lz4_spec.h: block validity read from the LZ4 block format document'],
          timeout=900, est_s=100, wip=False, **L10),
     dict(name='c10_lz4_decoder_rejects_invalid', prop='C10', entry='h_lz4_decompress_accepts_only_valid',
